@@ -22,7 +22,7 @@ pub struct KnownFindings {
 }
 
 pub fn load() -> KnownFindings {
-    let p = std::path::Path::new(crate::run::VERIF_DIR).join("known_findings.json");
+    let p = crate::run::verif_dir().join("known_findings.json");
     match std::fs::read_to_string(&p) {
         Ok(s) => serde_json::from_str(&s).unwrap_or_else(|e| {
             eprintln!("known_findings.json unreadable: {e}");
